@@ -3,7 +3,7 @@
   whose payload the transport does not hold in full reports io.ErrUnexpectedEOF (clean end of
   stream) or the transport's own failure — never nil, never io.EOF — for every chunking.
 -/
-import WsVerif.Proofs.Reader
+import WsVerif.Props.C16
 namespace Ws.C16
 open Ws Ws.RdProof
 
@@ -70,5 +70,53 @@ theorem discard_cut (r : Rd) (s : Src) (cx : Ctx) (cb : Option Callback) (fuel :
 /-- Non-vacuity: a masked 5-byte frame of which 2 bytes arrived, the stream then ending cleanly. -/
 example : (Rd.discard { state := 1, hasFrame := true, rawN := 5, masked := true, mask := ⟨1, 2, 3, 4⟩ }
     { chunks := [[9], [8]], fin := .eof } {} none 3).1 = some .ueof := by rfl
+
+/-- draining never changes how the transport will end -/
+theorem drainRaw_fin (fuel : Nat) (r : Rd) (s : Src) : (r.drainRaw s fuel).2.2.fin = s.fin := by
+  induction fuel generalizing r s with
+  | zero => rfl
+  | succ n ih =>
+    unfold Rd.drainRaw Rd.rawRead
+    by_cases h0 : r.rawN = 0
+    · simp [h0]
+    · simp only [h0, if_false]
+      have hfin := (src_read_fin s (min 32768 r.rawN)).1
+      rcases hr : s.read (min 32768 r.rawN) with ⟨got, e, s1⟩
+      rw [hr] at hfin
+      simp only at hfin ⊢
+      cases e with
+      | none =>
+        simp only
+        by_cases hg : (got.isEmpty = true ∧ r.rawN - got.length = r.rawN ∧ s1.chunks.length = s.chunks.length)
+        · rw [if_pos hg]; exact hfin
+        · rw [if_neg hg, ih]; exact hfin
+      | some f =>
+        cases f with
+        | eof =>
+          simp only
+          by_cases hl : r.rawN - got.length > 0
+          · simp only [hl, if_true]; exact hfin
+          · simp only [hl, if_false]; exact hfin
+        | fail => exact hfin
+
+/-- **Discard when the stream ends cleanly between two fragments** (the current, non-final frame is
+    complete, nothing follows): io.ErrUnexpectedEOF — the message was cut, it was not skipped. -/
+theorem discard_ends_between_fragments (r : Rd) (s : Src) (cx : Ctx) (cb : Option Callback) (fuel : Nat)
+    (hfrag : r.fragmented = true) (hn : r.rawN = s.bytes.length) (htame : Src.Tame s) (hfin : s.fin = .eof) :
+    (r.discard s cx cb (fuel + 1)).1 = some .ueof := by
+  obtain ⟨s', hd, hb, _, _, _⟩ := drainRaw_ok s.fuel r s s.bytes [] (by simp) hn htame (by unfold Src.fuel mu; omega)
+  have hf' : s'.fin = .eof := by
+    have := drainRaw_fin s.fuel r s
+    rw [hd] at this
+    simpa [hfin] using this
+  have hfr : ({ r with rawN := 0 } : Rd).fragmented = true := by simpa [Rd.fragmented] using hfrag
+  have hnf := cut_between_fragments_is_error { r with rawN := 0 } s' cx cb hfr hb hf'
+  unfold Rd.discard
+  simp only [hd, hfr, Bool.not_true, Bool.false_eq_true, if_false]
+  rcases hx : ({ r with rawN := 0 } : Rd).nextFrame s' cx cb with ⟨h, e2, r2, s2, cx2⟩
+  rw [hx] at hnf
+  simp only at hnf ⊢
+  subst hnf
+  rfl
 
 end Ws.C16
